@@ -114,6 +114,36 @@ def main():
                                  {"case": dict(c, ops=c["ops"][: k + 2 * L + 1]), "before": before[l], "after": after[l]}, tag="frame")
             k += L + 1
     lr.stats["frame_checks"] = nframe
+    # the parent list is the only way in: replacing it is one step. A storage write that fails inside SetParents (reported to the caller)
+    # leaves the old list or the new one in force after a reload, never none.
+    pf = []
+    for st in ("indexed", "linear"):
+        for old, new in ((["p"], ["q"]), (["p", "q"], ["p"]), (["p"], ["p", "q"]))[: (3 if ck.thorough else 2)]:
+            base = [{"op": "addFact", "loc": "p", "id": "fp", "fact": {"k": "from-p"}}, {"op": "addFact", "loc": "q", "id": "fq", "fact": {"k": "from-q"}},
+                    {"op": "setParents", "loc": "a", "parents": old}]
+            for nth in (1, 2, 3):
+                pf.append(({"kind": "loc", "state": st, "locs": ["a", "p", "q"], "failRel": nth, "ops": base + [
+                    {"op": "setParents", "loc": "a", "parents": new}, {"op": "reload", "loc": "a"}, {"op": "getParents", "loc": "a"},
+                    {"op": "search", "loc": "a", "pattern": {"k": "?k"}, "inherited": True}]}, old, new))
+    # writes before the second SetParents: measured on a fault-free run
+    w0 = {}
+    for c, _, _ in pf:
+        key = (c["state"], canon(c["ops"][2]))
+        if key not in w0:
+            o = run_cases(lr.drv, [dict(c, ops=c["ops"][:3])])[0]
+            w0[key] = ((o.get("outs") or [{}])[-1] or {}).get("writes", 0)
+        c["failAt"] = w0[key] + c.pop("failRel")
+    for (c, old, new), o in zip(pf, run_cases(lr.drv, [c for c, _, _ in pf])):
+        ck.count({"parents_fault": c["failAt"], "s": c["state"], "old": old, "new": new})
+        lr.stats["parents_fault_points"] += 1
+        outs = o.get("outs") or []
+        if len(outs) < 6 or not isinstance(outs[5], dict): continue
+        got = outs[5].get("ok")
+        if "ok" in outs[3]:
+            continue            # the fault point lies beyond the operation's writes
+        if got not in (old, new):
+            ck.violation("a storage write failed inside SetParents(%s) (reported: %s); after a reload the location's parents are %s, neither the previous list %s nor the new one (%s state)" % (
+                new, outs[3].get("err"), got, old, c["state"]), {"case": c, "impl": outs[3:]}, tag="parents-fault")
     for c in cases[:2]:
         ck.sample({"state": c["state"], "locs": c["locs"], "ops": c["ops"][:8]})
     lr.finish_cov("forests of 2-5 locations whose parent lists change over time (self loops, indirect loops, missing parents included), histories of facts/rules/flags spread over them, "
